@@ -238,7 +238,7 @@ def run_property(pid, tier, seed=0):
                       generated_file=res['file'], checker_cmd=res['cmd'], concrete_input=None)
         cex = None
         try:
-            cex = CEX.search(pid, item['key'], res['digit'], res['mode'])
+            cex = CEX.search(pid, item['key'], res['digit'], res['mode'], budget_s=(240 if tier == 'quick' else 1200))
         except Exception as ex:  # counter-example search is best effort
             replay['cex_search_error'] = str(ex)
         if cex:
@@ -262,11 +262,11 @@ def run_property(pid, tier, seed=0):
     done_generic = {g.split('/')[0] for g in seen_generic}
     spent = 0.0
     for gk, (res, key) in sorted(suspects.items()):
-        if gk in done_generic or spent > 2400 or os.environ.get('BNV_NO_KANI'):
+        if gk in done_generic or spent > (600 if tier == 'quick' else 3600) or os.environ.get('BNV_NO_KANI'):
             continue
         t1 = time.time()
         try:
-            cex = CEX.search(pid, key, res['digit'], res['mode'], budget_s=900)
+            cex = CEX.search(pid, key, res['digit'], res['mode'], budget_s=(240 if tier == 'quick' else 1200))
         except Exception as ex:
             cex = None
             undecided.append(f'counter-example search for {key} failed: {ex}')
